@@ -36,8 +36,11 @@ WorkDirAnywhere(f) == \E i \in 1..Len(f) : f[i] = WorkDir
 (* C15 *)
 \* files that a resource (paths, exts) MUST denote: regular files at or below a listed path, reached without
 \* any symbolic link, not inside a .zinoma directory, with a matching name
+\* (an entry that is a symbolic link to a regular file counts as that file - the tree records what a link resolves to in
+\* `to` - but nothing is ever reached THROUGH a link)
+IsFileEntry(m) == m.ty = "file" \/ (m.ty = "link" /\ m.to = "file")
 Must(tree, paths, exts) ==
-  {n.p : n \in {m \in tree : m.ty = "file" /\ ~LinkAbove(tree, m.p) /\ ~WorkDirAnywhere(m.p)
+  {n.p : n \in {m \in tree : IsFileEntry(m) /\ ~LinkAbove(tree, m.p) /\ ~WorkDirAnywhere(m.p)
                               /\ ExtOK(Last(m.p), exts) /\ \E d \in SeqToSet(paths) : Covered(d, m.p)}}
 \* a listed path outside Must is tolerated only where the statement is silent: it involves a symbolic link,
 \* or a .zinoma component above the declared path; never a non-matching name, never outside the listed paths,
@@ -53,7 +56,7 @@ ListingOK(tree, paths, exts, listed) ==
 (* C12 *)
 \* real nodes that cleaning one output resource must remove / may remove; everything else must survive
 MustRemove(tree, paths, exts) ==
-  IF NormExts(exts) # {} THEN Must(tree, paths, exts)
+  IF NormExts(exts) # {} THEN {f \in Must(tree, paths, exts) : Node(tree, f).ty = "file"}
   ELSE {n.p : n \in {m \in tree : ~LinkAbove(tree, m.p) /\ \E d \in SeqToSet(paths) :
                                     /\ IsPrefix(d, m.p) /\ Has(tree, d) /\ Node(tree, d).ty # "link"}}
 MayRemove(tree, paths, exts) ==
